@@ -213,6 +213,25 @@ def io_reader_table(repo: Repo):
             rec["direct"] = False
             rec["wrapped"] = bool(inner) and inner[0] is not rets[0].value
             rec["call"] = rets[0].value
+            # x = np.load(path); x[...] = f(x[...]); return x   - the loaded value is rewritten before it is handed out
+            if isinstance(rets[0].value, ast.Name):
+                nm = rets[0].value.id
+                defs = [n for n in ast.walk(fi.node) if isinstance(n, ast.Assign) and len(n.targets) == 1 and isinstance(n.targets[0], ast.Name) and
+                        n.targets[0].id == nm]
+                loads = [d_ for d_ in defs if isinstance(d_.value, ast.Call) and (repo.dotted_of(fi.module, d_.value.func) or "") in LOAD_FAMILY]
+                edits = []
+                for n in ast.walk(fi.node):
+                    tg = n.targets[0] if isinstance(n, ast.Assign) and len(n.targets) == 1 else (n.target if isinstance(n, ast.AugAssign) else None)
+                    if tg is None:
+                        continue
+                    root = tg
+                    while isinstance(root, (ast.Subscript, ast.Attribute)):
+                        root = root.value
+                    if isinstance(root, ast.Name) and root.id == nm and (tg is not root or isinstance(n, ast.AugAssign)):
+                        edits.append(n)
+                if len(defs) == 1 and loads and edits:
+                    rec["wrapped"] = True
+                    rec["call"] = edits[0]
         out[name] = rec
     return out
 
